@@ -19,6 +19,7 @@
  R10 route index  : the live route list is never edited through the enumeration index of its snapshot (service sheet).
  R11 next node    : corresp_next_node walks over every passive line element and only those (truth table).
  R12 checks/trims : each sanity test follows the code that fills its list; both ends of a service route list are trimmed independently.
+ R13 corrected routes: the service file is built from the result of correct_xls_route_list, after it ran.
 """
 import ast
 import re
@@ -575,5 +576,31 @@ def r12_checks_and_trims(ctx):
                    'a strict route naming both its own transceivers keeps one of them and is rejected')
     ctx.need('R12.end-trims', 1)
 
+
+
+def r13_corrected_routes(ctx):
+    """R13: the service file is built from the CORRECTED requests: read_service_sheet turns the rows into path requests and
+    synchronisation vectors only after correct_xls_route_list has translated / pruned their route lists, and from its result"""
+    repo = ctx.repo
+    f = repo.func(SS, 'read_service_sheet')
+    cs = calls_to(f, {'correct_xls_route_list'})
+    ok = len(cs) == 1 and isinstance(stmt_of(f, cs[0]), ast.Assign) and isinstance(stmt_of(f, cs[0]).targets[0], ast.Name)
+    det = ''
+    if ok:
+        st = stmt_of(f, cs[0])
+        t = st.targets[0].id
+        users = [c for c in walk_no_nested(f.node) if isinstance(c, (ast.ListComp, ast.GeneratorExp)) and '.json[' in ast.unparse(c.elt)]
+        det = '; '.join(f'{ast.unparse(u)[:50]} @{u.lineno}' for u in users)
+        # every later store into t would replace the corrected list: none allowed
+        restores = [n for n in walk_no_nested(f.node) if isinstance(n, ast.Assign) and isinstance(n.targets[0], ast.Name) and
+                    n.targets[0].id == t and n is not st and n.lineno > st.lineno]
+        ok = len(users) >= 2 and all(isinstance(u.generators[0].iter, ast.Name) and u.generators[0].iter.id == t and
+                                     stmt_of(f, u).lineno > st.lineno for u in users) and not restores
+    ctx.check('R13.corrected-routes', site(f), ok, key(f, 'corrected'),
+              'the path requests / synchronisation vectors of the service file are not built from the result of correct_xls_route_list '
+              '(after it ran): route lists given with site names, or starting / ending with the end transceivers, would reach the file '
+              'untranslated', det)
+    ctx.need('R13.corrected-routes', 1)
+
 RULES = [('R1.headers', r1_headers), ('R2.mirrors', r2_mirrors), ('R3.defaulting', r3_defaulting), ('R4.units', r4_units),
-         ('R5.errors', r5_errors), ('R6.rows', r6_rows), ('R7.node-types', r7_node_types), ('R8.cable-names', r8_cable_names), ('R9.ila-degree', r9_ila_degree), ('R10.route-index', r10_route_index), ('R11.next-node', r11_next_node), ('R12.checks-and-trims', r12_checks_and_trims)]
+         ('R5.errors', r5_errors), ('R6.rows', r6_rows), ('R7.node-types', r7_node_types), ('R8.cable-names', r8_cable_names), ('R9.ila-degree', r9_ila_degree), ('R10.route-index', r10_route_index), ('R11.next-node', r11_next_node), ('R12.checks-and-trims', r12_checks_and_trims), ('R13.corrected-routes', r13_corrected_routes)]
